@@ -30,9 +30,22 @@ def per_trait(items, traits):
 
 def _take_qualified_attr(tokens):
     """(args, rest) if the re-emitted item still starts with a derive_ex attribute macro (bare or crate path), else None (token text from the expander)"""
-    m = re.match(r"\s*#\s*\[\s*(?:(?:::\s*)?derive_ex\s*::\s*)?derive_ex\s*\(", tokens)
-    if not m:
-        return None
+    # inert attributes (lints, docs, ..) in front of it stay on the item: rustc expands the first attribute *macro*, wherever it stands
+    lead = ""
+    while True:
+        m = re.match(r"\s*#\s*\[\s*(?:(?:::\s*)?derive_ex\s*::\s*)?derive_ex\s*\(", tokens)
+        if m:
+            break
+        m0 = re.match(r"\s*#\s*\[", tokens)
+        if not m0:
+            return None
+        i, depth = m0.end(), 1
+        while i < len(tokens) and depth:
+            depth += {"[": 1, "]": -1}.get(tokens[i], 0)
+            i += 1
+        if depth:
+            return None
+        lead, tokens = lead + tokens[:i] + " ", tokens[i:]
     i = m.end()
     depth = 1
     while i < len(tokens) and depth:
@@ -41,7 +54,7 @@ def _take_qualified_attr(tokens):
     m2 = re.match(r"\s*\]", tokens[i:])
     if depth or not m2:
         return None
-    return tokens[m.end():i - 1], tokens[i + m2.end():]
+    return tokens[m.end():i - 1], lead + tokens[i + m2.end():]
 
 
 def expand_like_rustc(ex, args, item, fuel=6):
@@ -93,6 +106,10 @@ def run(ctx):
             nontriv += 1
             if impls_of(s, True) != base:
                 ctx.violation(key + ":split", "splitting the trait list across several derive_ex attributes changes the impls", dict(rep, split_item=split_src, merged=base, split=impls_of(s, True)))
+            s2 = ex.attr(", ".join(derived[:cut]), "/// lead\n " + " /// between\n ".join("#[derive_ex(%s)]" % t for t in derived[cut:]) + " /// tail\n " + src)
+            evals += 1
+            if impls_of(s2, True) != base:
+                ctx.violation(key + ":split-interleaved", "doc comments between the split derive_ex attributes change the impls", dict(rep, split_item=split_src, merged=base, split=impls_of(s2, True)))
             d2 = ex.derive(" ".join("#[derive_ex(%s)]" % t for t in derived) + " " + src)
             evals += 1
             if impls_of(d2, False) != base:
@@ -206,12 +223,15 @@ def run(ctx):
         merged = impls_of(ex.attr("%s, %sAssign" % (op, op), item), True)
         for first, second in ((op, op + "Assign"), (op + "Assign", op)):
             for spelling in ("derive_ex", "derive_ex::derive_ex"):
-                got = expand_like_rustc(ex, first, "#[%s(%s)] %s" % (spelling, second, item))
-                evals += 3
-                nontriv += 1
-                if got is None or merged is None or sorted(got) != sorted(merged):
-                    ctx.violation("B:C15:impl-split:%s:%s:%s" % (spelling, first, hdr), "#[derive_ex(%s)] #[%s(%s)] on an impl item does not give the impls of the merged list" % (first, spelling, second),
-                                  {"layer": "B", "item": "#[%s(%s)] %s" % (spelling, second, item), "args": first, "merged": merged, "split": got})
+                # foreign attributes may stand before / between / after the split attributes (doc comments: they change no impl)
+                for pre, post in (("", ""), ("/// lead\n ", ""), ("", "/// tail\n "), ("#[doc = \"a\"] ", "#[doc = \"b\"] ")):
+                    split_item = "%s#[%s(%s)] %s%s" % (pre, spelling, second, post, item)
+                    got = expand_like_rustc(ex, first, split_item)
+                    evals += 3
+                    nontriv += 1
+                    if got is None or merged is None or sorted(got) != sorted(merged):
+                        ctx.violation("B:C15:impl-split:%s:%s:%s:%s" % (spelling, first, hdr, (pre + "|" + post).strip()), "#[derive_ex(%s)] %s#[%s(%s)] %son an impl item does not give the impls of the merged list" % (first, pre, spelling, second, post),
+                                      {"layer": "B", "item": split_item, "args": first, "merged": merged, "split": got})
     # systematic part of relation (c): every comparison trait, alone vs. with every co-derived subset of the other comparison traits,
     # on fields carrying only helper attributes that belong to that trait
     import itertools, cmpfam
